@@ -107,7 +107,7 @@ PLANS = {
     "C16": {
         "quick": [st("dbg", "changeset", 16000, 14, 8), st("rel", "changeset", 16000, 14, 8)],
         "thorough": [st("dbg", "changeset", 1600000, 16, 16, 3000), st("rel", "changeset", 1600000, 16, 16, 3000),
-                     st("asan", "changeset", 160000, 14, 16, 3000), st("miri", "changeset", 48, 8, 16, 3000)],
+                     st("asan", "changeset", 160000, 14, 16, 3000), st("miri", "changeset", 48, 8, 16, 3000, small=1)],
     },
     "C17": world(miri=False, asan=False),
     "C19": {
